@@ -35,7 +35,9 @@ def build_all(ctx):
     out["LA"], _ = ip.call_function(f_lap, [mesh], {"link_exponents": A})
     # MeshOperators as the solver constructs it for mu (no fixed sites involved in mu operators)
     mo_cls = repo.cls(OPS, "MeshOperators")
-    mo = ip.construct(mo_cls, [mesh, EnumVal("SparseSolver.SUPERLU")], {})
+    from ..interp import Idx
+    mo = ip.construct(mo_cls, [mesh, EnumVal("SparseSolver.SUPERLU")],
+                      {"fixed_sites": Idx("F", "fixed", "site"), "fix_psi": True})
     ip.call_method(mo, "build_operators", [], {})
     out["mo"] = mo
     ctx.note("functions", [f.fq for f in (f_div, f_grad, f_lap, f_neu)] + [mo_cls.fq + ".__init__",
